@@ -452,6 +452,13 @@ impl DiskCache {
             return Ok(false);
         };
 
+        // the stored header must hold one offset per chunk boundary of the range the item's name claims,
+        // otherwise the file does not belong to this name (e.g. it was renamed) and cannot be matched against
+        if header.chunk_byte_indices.len() != (cache_item.range.end - cache_item.range.start) as usize + 1 {
+            self.remove_item(key, cache_item)?;
+            return Ok(false);
+        }
+
         // validate the chunk_byte_indices and data input against stored data
         // the chunk_byte_indices should match the chunk lengths, if the ranges
         // don't start at the same chunk, values will be different, what's important
